@@ -89,6 +89,20 @@ impl Property for C13 {
             cfg.allow_input_x = true;
         }
         let mut built = gen_case(&mut Ch::new(&s[0]), &cfg);
+        // now and then an output has a twin whose name differs in the case of its letters only (same width, no column
+        // of its own): two signals all the same - an answer that lists them the other way round is another order
+        if dch.chance(1, 6) {
+            use crate::model::*;
+            if let Some(o) = built.sigs.iter().find(|s| matches!(s.kind, Kind::Out) && is_ident(&s.name) && s.name.to_lowercase() != s.name).cloned() {
+                let twin = o.name.to_lowercase();
+                if !built.sigs.iter().any(|s| s.name == twin) && !built.prog.header.contains(&twin) && !built.analysis.virtuals.contains(&twin) {
+                    let at = dch.upto(built.sigs.len() + 1);
+                    built.sigs.insert(at, Sig { name: twin, bits: o.bits, kind: Kind::Out });
+                    built.cols = col_roles(&built.prog.header, &built.sigs);
+                    out.class("outputs-differing-in-letter-case-only");
+                }
+            }
+        }
         // every row statement carries a tag and two probe inputs `(P)` reading device outputs
         let readable: Vec<String> =
             built.sigs.iter().filter(|s| s.is_output() && is_ident(&s.name)).map(|s| s.name.clone()).collect();
